@@ -76,6 +76,9 @@ private:
 	// true while there is an outstanding write operation to the server
 	bool m_writing_to_server;
 
+	// true while a name lookup or connect to the server is under way
+	bool m_connecting = false;
+
 	// receive buffer for requests from the client. i.e. client -> proxy (us) -> server
 	char m_client_in_buffer[65536];
 	// buffer size
